@@ -39,6 +39,9 @@ type DetCase struct {
 	// bodies), served with their own variables between repetitions
 	Neighbours []NeighbourReq `json:"neighbours,omitempty"`
 	Cache   bool                    `json:"cache"` // serve through a PlanCache as well
+	// CacheSize: MaxEntries of that cache (0 = the default); with 1-3 entries the interleaved requests,
+	// which then go through the cache too, evict the entry of the request under test between repetitions
+	CacheSize int `json:"cacheSize,omitempty"`
 }
 
 type NeighbourReq struct {
@@ -190,7 +193,7 @@ func c12Oracle(c *DetCase) (msg string, multi bool) {
 	digest("validate", c.Text, firstV)
 	var pc *graphql.PlanCache
 	if c.Cache {
-		pc = graphql.NewPlanCache(graphql.PlanCacheOptions{})
+		pc = graphql.NewPlanCache(graphql.PlanCacheOptions{MaxEntries: c.CacheSize})
 	}
 	firstCached := ""
 	var altFirst []string
@@ -212,6 +215,11 @@ func c12Oracle(c *DetCase) (msg string, multi bool) {
 	for k := 0; k < c12K; k++ {
 		for _, o := range c.Others {
 			graphql.Do(graphql.Params{Schema: b.Schema, RequestString: o, Context: sess()})
+			if pc != nil && c.CacheSize > 0 {
+				if pr := pc.Get(&b.Schema, o, ""); pr.Plan != nil {
+					graphql.ExecutePlan(pr.Plan, graphql.ExecuteParams{Schema: b.Schema, Context: sess()})
+				}
+			}
 		}
 		for _, nb := range c.Neighbours {
 			nv := map[string]interface{}{}
@@ -273,7 +281,7 @@ func TestC12_Fixed(t *testing.T) {
 			if j > 0 && !strings.Contains(text, "$v") {
 				continue
 			}
-			c := &DetCase{Text: text, Others: []string{detRequests[(i+1)%len(detRequests)], detRequests[(i+7)%len(detRequests)]}, Cache: i%2 == 0}
+			c := &DetCase{Text: text, Others: []string{detRequests[(i+1)%len(detRequests)], detRequests[(i+7)%len(detRequests)]}, Cache: i%2 == 0, CacheSize: []int{0, 1, 2}[(i/2)%3]}
 			if v != nil {
 				c.Vars = map[string]*model.Val{}
 				b, _ := json.Marshal(v["v"])
@@ -351,7 +359,7 @@ func TestC12_Gen(t *testing.T) {
 		ec, _ := genExecCase(rt, gen.SchemaOpts{Mutation: true}, gen.DocOpts{Budget: 25}, gen.WorldOpts{Adversarial: 40, NoPropagation: false})
 		ec.fix()
 		text := model.Print(ec.Doc, ec.Layout).Text
-		c := &DetCase{Schema: ec.Schema, World: ec.World, Text: text, OpName: ec.OpName, Vars: ec.Vars, AltVars: ec.AltVars, Cache: gen.Chance(rt, 50, "cache")}
+		c := &DetCase{Schema: ec.Schema, World: ec.World, Text: text, OpName: ec.OpName, Vars: ec.Vars, AltVars: ec.AltVars, Cache: gen.Chance(rt, 50, "cache"), CacheSize: gen.Uniform(rt, 4, "cacheSize")}
 		if gen.Chance(rt, 50, "others") {
 			c.Others = []string{`{ __typename }`, `{ nope }`,
 				`{ __schema { types { name possibleTypes { name } interfaces { name } fields { name args { name } } enumValues { name } inputFields { name } } directives { name args { name } } } }`}
